@@ -22,7 +22,7 @@ claimed = {
              "route with a literal where the winner has a variable may exist. Decided per table by the solver over all requests in the bound.", design="5 (C03)"),
  "C04": dict(text="For the invoked route and every matching canonical request path in the bound, each bound value is proved equal to the oracle's view of the URL segment (minus affixes and "
              "custom verb), the tail wildcard to the joined remainder, and the key set to the declared variables; thorough adds the substitute-back round trip at a smaller capacity.", design="5 (C04)"),
- "C14": dict(text="Product harness: the same container serves p and p+\"/\" for a symbolic p; the solver proves equal status, route, parameter values and Allow header for every p in the bound.", design="5 (C14)"),
+ "C14": dict(text="Product harness: the same container serves p and p+\"/\" for a symbolic p; the solver proves equal status, route, parameter values and Allow header for every p in the bound; a second harness repeats the product on a container with a history (earlier requests for p and p/, then routes added with and without dynamic routes, one removed).", design="5 (C14)"),
  "C17": dict(text="Per symbolic URL: one dispatch per method of the table (plus a foreign one), one OPTIONS dispatch through OPTIONSFilter and a filter-less twin; the solver proves the Allow sets "
              "(405 and OPTIONS) equal the set of methods not answered 404/405, outside the recorded finding classes; one more method is a symbolic string different from every declared one (HEAD, PATCH, anything): it must not be routable.", design="5 (C17)"),
  "C18": dict(text="Twin containers (CurlyRouter, RouterJSR311) on tables of the common fragment get the same symbolic request; the solver proves equal route, parameter values, status and Allow "
@@ -60,7 +60,7 @@ claimed = {
              "the ones received, also after an earlier request on the same container (to the same route or to a sibling with the same method and path and its own route filter); routing failures are produced by the built-in routers and by a custom RouteSelector that reports a plain error.", design="5 (C06)"),
  "C08": dict(text="CrossOriginResourceSharing.Filter in a real container with symbolic Origin, symbolic allowed-domain entries and predicate string: the solver proves that any Access-Control-* "
              "response header implies the reference 'origin allowed' predicate, that Allow-Origin echoes the Origin once, credentials only if configured, and that requests without or with a "
-             "disallowed Origin are served exactly like on a filter-less twin; a second harness chains two filters with different configurations.", design="5 (C08)"),
+             "disallowed Origin are served exactly like on a filter-less twin; a second harness chains two filters with different configurations; the predicate may have accepted the origin in an earlier request and refuse it now.", design="5 (C08)"),
  "C09": dict(text="Symbolic method, requested method and requested header list against configured or computed allowed methods and symbolic allowed headers: the solver proves that a preflight "
              "never reaches a later filter or route, is granted exactly when method and every requested header are allowed, and that actual requests proceed with each header once; an optional "
              "earlier preflight to the other URL must not change the answer; the requested headers may arrive on two header lines.", design="5 (C09)"),
